@@ -5,6 +5,7 @@ P="${1:-4}"
 one() {
   S="$1"; ID="${S%%-*}"; DST=/verif/seeded/$S; SW=/tmp/seedall-$S
   [ -f $DST/superseded ] && { echo "$S SUPERSEDED (see evaluation.txt)"; return; }
+  [ -f $DST/out_of_scope ] && { echo "$S OUT-OF-SCOPE (see out_of_scope)"; return; }
   CHECKS="$ID"; [ -f $DST/also_checks ] && CHECKS="$CHECKS $(cat $DST/also_checks)"
   rm -rf $SW; git -C /repo worktree add -q --detach $SW HEAD 2>/dev/null && git -C $SW apply $DST/patch.diff || { echo "$S APPLY-FAILED"; return; }
   RES="MISSED"; BY=""
